@@ -1,11 +1,36 @@
 package main
 
 import (
+	"context"
+	"encoding/json"
 	"fmt"
+	"go/types"
 	"os"
+	"os/exec"
 	"path/filepath"
+	"regexp"
+	"strconv"
 	"strings"
+	"time"
+
+	"golang.org/x/tools/go/ssa"
 )
+
+// Counterexamples.
+//
+// A failed obligation is first of all a named obligation that no longer discharges. Where the solver answers `sat` (after
+// the relevance filter most safety obligations of small functions are quantifier-free enough for that), its model is turned
+// into arguments of the real function and the real function is run on them in an in-package test injected with
+// `go test -overlay` (nothing is written into the repository). Only what the real code does counts: a model is a model of the
+// abstraction (loops cut at their invariants, callees replaced by contracts), so the input is reported as a failing input
+// only if the real function panics on it. Everything else ends with `no-failing-input-found`.
+//
+// Functions within reach of the replay: package-level functions and methods whose parameters (receiver included) are
+// booleans, integers, strings, byte slices (or named types of those) and pointers to structs that the precondition says
+// nothing about beyond non-nil (those are passed as fresh zero values).
+
+const replayElems = 256 // elements of a string / byte slice read from the model in the first round
+const replayMaxLen = 1 << 16
 
 // counterexample tries to turn a failed obligation into an input that fails on the real code.
 // It always writes a replay file naming the obligation and carrying the solver output.
@@ -16,28 +41,395 @@ func (e *Engine) counterexample(j *job, prelude, dir, repo string, timeoutS int)
 	fmt.Fprintf(&b, "obligation: %s\nkind: %s\nposition: %s\nclause: %s\nsolver: %s status: %s (%d ms, %d queries)\nvc: %s\n",
 		j.obl.Name, j.obl.Kind, j.obl.Pos, j.obl.Text, j.res.Solver, j.res.Status, j.res.Ms, j.queries, j.res.File)
 	fmt.Fprintf(&b, "solver output:\n%s\n", trunc(j.res.Output, 4000))
-	found := false
-	if rep, ok := e.replay(j, prelude, dir, repo, timeoutS, &b); ok {
-		found = rep
+	found := e.replay(j, prelude, repo, timeoutS, &b)
+	if found {
+		b.WriteString("result: failing-input-found (the real function panics on the input above)\n")
+	} else {
+		b.WriteString("result: no-failing-input-found\n")
 	}
 	os.WriteFile(path, []byte(b.String()), 0o644)
 	return path, found
 }
 
-func (e *Engine) replay(j *job, prelude, dir, repo string, timeoutS int, log *strings.Builder) (bool, bool) {
-	return false, false
+type replayParam struct {
+	name  string
+	smt   string
+	sort  Sort
+	typ   types.Type
+	class string // int bool string bytes ptr
 }
+
+func replayClass(t types.Type) string {
+	switch u := t.Underlying().(type) {
+	case *types.Basic:
+		switch {
+		case u.Info()&types.IsBoolean != 0:
+			return "bool"
+		case u.Info()&types.IsInteger != 0:
+			return "int"
+		case u.Info()&types.IsString != 0:
+			return "string"
+		}
+	case *types.Slice:
+		if b, ok := u.Elem().Underlying().(*types.Basic); ok && b.Kind() == types.Uint8 {
+			return "bytes"
+		}
+	case *types.Pointer:
+		if _, ok := u.Elem().Underlying().(*types.Struct); ok {
+			if _, named := u.Elem().(*types.Named); named {
+				return "ptr"
+			}
+		}
+	}
+	return ""
+}
+
+var paramDeclRe = regexp.MustCompile(`^\(declare-const (p_[^ ]+![0-9]+) `)
+
+// replay: model -> arguments -> run of the real function. Reports whether the real function panicked.
+func (e *Engine) replay(j *job, prelude, repo string, timeoutS int, log *strings.Builder) bool {
+	fn := j.un.fn
+	if fn == nil || fn.Parent() != nil || fn.Pkg == nil || len(fn.FreeVars) > 0 {
+		log.WriteString("replay: not attempted (closure or synthetic unit)\n")
+		return false
+	}
+	if j.res.Status != "sat" {
+		log.WriteString("replay: not attempted (the solver gave no model: status " + j.res.Status + ")\n")
+		return false
+	}
+	// parameters and their SMT constants (declared in order at the start of the unit)
+	var consts []string
+	for _, d := range j.un.decls {
+		if m := paramDeclRe.FindStringSubmatch(d); m != nil {
+			consts = append(consts, m[1])
+		}
+	}
+	if len(consts) < len(fn.Params) {
+		log.WriteString("replay: not attempted (parameter constants not found)\n")
+		return false
+	}
+	ct := e.contractFor(fn)
+	var ps []replayParam
+	for i, p := range fn.Params {
+		c := replayClass(p.Type())
+		if c == "" {
+			fmt.Fprintf(log, "replay: not attempted (parameter %s of type %s cannot be built from a model)\n", p.Name(), p.Type())
+			return false
+		}
+		if c == "ptr" && ct != nil {
+			for _, r := range ct.Requires {
+				if strings.Contains(r.Text, p.Name()+".") || strings.Contains(r.Text, "("+p.Name()+")") || strings.Contains(r.Text, "*"+p.Name()) {
+					fmt.Fprintf(log, "replay: not attempted (the precondition constrains the object behind %s)\n", p.Name())
+					return false
+				}
+			}
+		}
+		ps = append(ps, replayParam{name: p.Name(), smt: consts[i], sort: e.u.SortOf(p.Type()), typ: p.Type(), class: c})
+	}
+	query, err := os.ReadFile(j.res.File)
+	if err != nil {
+		query = []byte(j.un.Query(j.obl, prelude, nil))
+	}
+	q := strings.Replace(string(query), "(check-sat)", "", 1)
+	q = "(set-option :produce-models true)\n" + q
+	hasBytes := strings.Contains(q, "(declare-const E_byte@0 ")
+	// small inputs first
+	var small []string
+	for _, p := range ps {
+		switch p.class {
+		case "bytes":
+			small = append(small, fmt.Sprintf("(assert (<= (slen %s) 32))", p.smt))
+		case "string":
+			small = append(small, fmt.Sprintf("(assert (<= (strlen %s) 32))", p.smt))
+		}
+	}
+	terms := func(n int) []string {
+		var ts []string
+		for _, p := range ps {
+			switch p.class {
+			case "int", "bool", "ptr":
+				ts = append(ts, p.smt)
+			case "string":
+				ts = append(ts, "(strlen "+p.smt+")")
+				for i := 0; i < n; i++ {
+					ts = append(ts, fmt.Sprintf("(strat %s %d)", p.smt, i))
+				}
+			case "bytes":
+				ts = append(ts, "(slen "+p.smt+")", "(sbase "+p.smt+")")
+				if hasBytes {
+					for i := 0; i < n; i++ {
+						ts = append(ts, fmt.Sprintf("(select (select E_byte@0 (sbase %s)) (+ (soff %s) %d))", p.smt, p.smt, i))
+					}
+				}
+			}
+		}
+		return ts
+	}
+	dir, err := os.MkdirTemp("", "wv_replay_")
+	if err != nil {
+		return false
+	}
+	defer os.RemoveAll(dir)
+	ask := func(extra []string, n int) ([]string, bool) {
+		ts := terms(n)
+		text := q + strings.Join(extra, "\n") + "\n(check-sat)\n(get-value (" + strings.Join(ts, " ") + "))\n"
+		f := filepath.Join(dir, "model.smt2")
+		os.WriteFile(f, []byte(text), 0o644)
+		ctx, cancel := context.WithTimeout(context.Background(), time.Duration(timeoutS+5)*time.Second)
+		defer cancel()
+		out, _ := exec.CommandContext(ctx, "z3-new", fmt.Sprintf("-T:%d", timeoutS), f).CombinedOutput()
+		s := string(out)
+		if !strings.HasPrefix(s, "sat") {
+			return nil, false
+		}
+		vals := parseGetValue(s[strings.Index(s, "\n")+1:], len(ts))
+		if vals == nil {
+			return nil, false
+		}
+		return vals, true
+	}
+	vals, ok := ask(small, 32)
+	n := 32
+	if !ok {
+		n = replayElems
+		vals, ok = ask(nil, n)
+	}
+	if !ok {
+		log.WriteString("replay: the solver gave no model on the second run\n")
+		return false
+	}
+	// arguments as Go expressions
+	pkg := fn.Pkg.Pkg
+	imports := map[string]string{}
+	qual := func(p *types.Package) string {
+		if p == pkg {
+			return ""
+		}
+		imports[p.Path()] = p.Name()
+		return p.Name()
+	}
+	var args, descr []string
+	k := 0
+	for _, p := range ps {
+		ty := types.TypeString(p.typ, qual)
+		switch p.class {
+		case "int":
+			v := vals[k]
+			k++
+			args = append(args, fmt.Sprintf("%s(%s)", ty, v))
+			descr = append(descr, fmt.Sprintf("%s = %s", p.name, v))
+		case "bool":
+			v := vals[k]
+			k++
+			args = append(args, fmt.Sprintf("%s(%s)", ty, v))
+			descr = append(descr, fmt.Sprintf("%s = %s", p.name, v))
+		case "ptr":
+			v := vals[k]
+			k++
+			if v == "0" {
+				args = append(args, fmt.Sprintf("(%s)(nil)", ty))
+				descr = append(descr, p.name+" = nil")
+			} else {
+				args = append(args, fmt.Sprintf("new(%s)", types.TypeString(p.typ.Underlying().(*types.Pointer).Elem(), qual)))
+				descr = append(descr, p.name+" = fresh zero value")
+			}
+		case "string", "bytes":
+			ln, _ := strconv.Atoi(vals[k])
+			k++
+			isNil := false
+			if p.class == "bytes" {
+				isNil = vals[k] == "0"
+				k++
+			}
+			have := n
+			if p.class == "bytes" && !hasBytes {
+				have = 0
+			}
+			if ln < 0 || ln > replayMaxLen {
+				fmt.Fprintf(log, "replay: not attempted (model length %d of %s)\n", ln, p.name)
+				return false
+			}
+			bs := make([]string, 0, ln)
+			for i := 0; i < ln; i++ {
+				if i < have {
+					b, _ := strconv.Atoi(vals[k+i])
+					bs = append(bs, strconv.Itoa(b&0xff))
+				} else {
+					bs = append(bs, "0")
+				}
+			}
+			k += have
+			lit := "[]byte{" + strings.Join(bs, ", ") + "}"
+			if p.class == "bytes" && isNil && ln == 0 {
+				lit = "[]byte(nil)"
+			}
+			args = append(args, fmt.Sprintf("%s(%s)", ty, lit))
+			show := lit
+			if len(show) > 300 {
+				show = show[:300] + "...}"
+			}
+			descr = append(descr, fmt.Sprintf("%s = %s", p.name, show))
+		}
+	}
+	call := fn.Name() + "(" + strings.Join(args, ", ") + ")"
+	if fn.Signature.Recv() != nil {
+		call = "(" + args[0] + ")." + fn.Name() + "(" + strings.Join(args[1:], ", ") + ")"
+	}
+	var src strings.Builder
+	fmt.Fprintf(&src, "package %s\n\nimport (\n\t\"fmt\"\n\t\"runtime/debug\"\n\t\"testing\"\n", pkg.Name())
+	for path, name := range imports {
+		fmt.Fprintf(&src, "\t%s %q\n", name, path)
+	}
+	src.WriteString(")\n\n")
+	fmt.Fprintf(&src, "// replay of %s\nfunc TestWVReplay(t *testing.T) {\n", j.obl.Name)
+	src.WriteString("\tdefer func() {\n\t\tif r := recover(); r != nil {\n\t\t\tfmt.Printf(\"WV-REPLAY-PANIC: %v\\n\", r)\n\t\t\tfmt.Printf(\"%s\\n\", debug.Stack())\n\t\t}\n\t}()\n")
+	fmt.Fprintf(&src, "\t%s\n\tfmt.Println(\"WV-REPLAY-RETURNED\")\n}\n", call)
+	pos := fn.Prog.Fset.Position(fn.Pos())
+	if !pos.IsValid() {
+		log.WriteString("replay: not attempted (no source position)\n")
+		return false
+	}
+	pkgDir := filepath.Dir(pos.Filename)
+	fmt.Fprintf(log, "replay-input: %s\nreplay-package: %s\nreplay-dir: %s\n--- replay test ---\n%s--- end replay test ---\n", strings.Join(descr, "; "), pkg.Path(), pkgDir, src.String())
+	out, err := runReplayTest(repo, pkg.Path(), pkgDir, src.String())
+	fmt.Fprintf(log, "replay-output:\n%s\n", trunc2(out, 3000))
+	if err != nil && !strings.Contains(out, "WV-REPLAY-") {
+		fmt.Fprintf(log, "replay: the test could not be run: %v\n", err)
+		return false
+	}
+	return strings.Contains(out, "WV-REPLAY-PANIC")
+}
+
+func trunc2(s string, n int) string {
+	if len(s) > n {
+		return s[:n] + "\n..."
+	}
+	return s
+}
+
+// runReplayTest runs an in-package test that exists only in an overlay.
+func runReplayTest(repo, pkgPath, pkgDir, src string) (string, error) {
+	dir, err := os.MkdirTemp("", "wv_replayrun_")
+	if err != nil {
+		return "", err
+	}
+	defer os.RemoveAll(dir)
+	tf := filepath.Join(dir, "wv_replay_test.go")
+	os.WriteFile(tf, []byte(src), 0o644)
+	ov, _ := json.Marshal(map[string]interface{}{"Replace": map[string]string{filepath.Join(pkgDir, "wv_replay_test.go"): tf}})
+	of := filepath.Join(dir, "overlay.json")
+	os.WriteFile(of, ov, 0o644)
+	ctx, cancel := context.WithTimeout(context.Background(), 180*time.Second)
+	defer cancel()
+	cmd := exec.CommandContext(ctx, "go", "test", "-overlay", of, "-vet=off", "-count=1", "-timeout", "60s", "-run", "^TestWVReplay$", "-v", pkgPath)
+	cmd.Dir = repo
+	// goindex=0: the module index of the go command ignores overlays of files in the module cache
+	cmd.Env = append(os.Environ(), "GOFLAGS=-mod=mod", "GOPROXY=off", "GOSUMDB=off", "GOTOOLCHAIN=local", "GODEBUG=goindex=0")
+	out, err := cmd.CombinedOutput()
+	return string(out), err
+}
+
+// parseGetValue reads the answer of (get-value (t1 ... tn)): ((t1 v1) ... (tn vn)); values are integers or booleans.
+func parseGetValue(s string, n int) []string {
+	s = strings.TrimSpace(s)
+	if !strings.HasPrefix(s, "(") {
+		return nil
+	}
+	// split the top-level list into its pair elements
+	var pairs []string
+	depth := 0
+	start := -1
+	for i := 0; i < len(s); i++ {
+		switch s[i] {
+		case '(':
+			depth++
+			if depth == 2 {
+				start = i
+			}
+		case ')':
+			if depth == 2 && start >= 0 {
+				pairs = append(pairs, s[start+1:i])
+				start = -1
+			}
+			depth--
+		}
+		if depth == 0 && i > 0 {
+			break
+		}
+	}
+	if len(pairs) != n {
+		return nil
+	}
+	out := make([]string, n)
+	for i, p := range pairs {
+		// the value is the last top-level element of the pair
+		p = strings.TrimSpace(p)
+		var v string
+		if strings.HasSuffix(p, ")") {
+			d := 0
+			k := len(p) - 1
+			for ; k >= 0; k-- {
+				if p[k] == ')' {
+					d++
+				} else if p[k] == '(' {
+					d--
+					if d == 0 {
+						break
+					}
+				}
+			}
+			v = p[k:]
+		} else {
+			v = p[strings.LastIndexAny(p, " \t\n")+1:]
+		}
+		v = strings.TrimSpace(v)
+		if strings.HasPrefix(v, "(-") {
+			v = "-" + strings.TrimSpace(strings.TrimSuffix(strings.TrimPrefix(v, "(-"), ")"))
+		}
+		if _, err := strconv.ParseInt(v, 10, 64); err != nil && v != "true" && v != "false" {
+			return nil
+		}
+		out[i] = v
+	}
+	return out
+}
+
+var _ = ssa.Function{}
 
 func cmdReplay(args []string) int {
 	if len(args) < 1 {
-		fmt.Fprintln(os.Stderr, "usage: wv replay <file>")
+		fmt.Fprintln(os.Stderr, "usage: wv replay <file> [--repo dir]")
 		return 2
+	}
+	repo := "/repo"
+	if len(args) >= 3 && args[1] == "--repo" {
+		repo = args[2]
 	}
 	data, err := os.ReadFile(args[0])
 	if err != nil {
 		fmt.Fprintln(os.Stderr, err)
 		return 2
 	}
-	fmt.Print(string(data))
+	text := string(data)
+	fmt.Print(text)
+	i := strings.Index(text, "--- replay test ---\n")
+	k := strings.Index(text, "--- end replay test ---")
+	if i < 0 || k < 0 {
+		return 0
+	}
+	src := text[i+len("--- replay test ---\n") : k]
+	field := func(name string) string {
+		for _, l := range strings.Split(text, "\n") {
+			if strings.HasPrefix(l, name+": ") {
+				return strings.TrimPrefix(l, name+": ")
+			}
+		}
+		return ""
+	}
+	out, _ := runReplayTest(repo, field("replay-package"), field("replay-dir"), src)
+	fmt.Printf("=== re-run on %s ===\n%s\n", repo, out)
+	if strings.Contains(out, "WV-REPLAY-PANIC") {
+		return 1
+	}
 	return 0
 }
